@@ -25,17 +25,26 @@ in the VM constants and in the build profile (`debug`):
 * (1) bump pointer — `bump_fast_cases` (the fast path answers `slow` iff `cursor + pad + size > limit`,
   never panics), `bump_fast_ok` (`(res+offset) % align = 0`, `cursor ≤ res`, `res + size ≤ limit`,
   new cursor `= res + size`, limit unchanged), `bump_fast_refines` (it IS `AllocModel.bumpAlloc` with
-  `pad = res - cursor`, so C02's `bump_guard`/`bump_seq` apply).  Slow path `acquire_block`:
-  `acquireBlockSize_spec` (`block_size = roundup(size, 32 KB)` covers `size` — the Rust source adds NO
-  alignment slack), `fresh_block_cases` / `fresh_block_fits_iff` — **the precise condition**: the
-  block acquired for a request fits it iff `padSpec start align offset + size ≤ roundup(size, 32 KB)`;
-  `fresh_block_fits_offset_multiple` (always true for `align ∣ offset`),
-  `fresh_block_with_slack_fits` / `fresh_buffer_fits` (a buffer of `get_maximum_aligned_size` bytes
-  always fits: the repair).  **Defect `gc:bump-align-leak`**: `bump_align_leak` (for EVERY 64-aligned
-  block start, `alloc(32744, 64, 8)` answers `slow` on the block acquired for it) and the `decide`
-  witness `bump_align_leak_witness`.  Hence the termination clause of C03 is FALSE for
-  `BumpAllocator` at such inputs (each retry acquires and abandons a block until the space is
-  exhausted); it is not provable and is refuted by these witnesses.  Immix uses the same bump
+  `pad = res - cursor`, so C02's `bump_guard`/`bump_seq` apply).
+  Slow path `acquire_block`, THIS tree (`acquireBlock`: `block_size = roundup(get_maximum_aligned_size
+  (size, align), 32 KB)`, the repair of `gc:bump-align-leak`): **`fresh_block_always_fits`** — for
+  every legal request with `MIN_ALIGNMENT ∣ size` the allocation into the block acquired for it
+  succeeds (never `.slow`, never `.panic`: `fresh_block_never_panics`), aligned and inside
+  `[start, start + block_size)`; `acquire_block_result_good`.  So **C03's termination clause holds
+  again for the bump allocator**: one `acquire_block` per slow-path call, no leaked block.
+  `acquireBlock_eq_old_of_min_align`: for `align = MIN_ALIGNMENT` the repaired function is the old
+  one (same block size, same outcome).
+  Slow path in the PINNED tree (`acquireBlockOld`: `block_size = roundup(size, 32 KB)`, NO alignment
+  slack) — kept as the record of why the repair was needed: `acquireBlockSize_spec`,
+  `fresh_block_cases` / `fresh_block_fits_iff` — **the precise condition**: the block acquired for a
+  request fits it iff `padSpec start align offset + size ≤ roundup(size, 32 KB)`; `fresh_block_ok`,
+  `fresh_block_never_panics_old`, `acquire_block_result_good_old` (conditional on success),
+  `fresh_block_fits_offset_multiple` (always true for `align ∣ offset`), `fresh_block_with_slack_fits`
+  / `fresh_buffer_fits` (a buffer of `get_maximum_aligned_size` bytes always fits: the repair, proved
+  before it was made).  **Defect `gc:bump-align-leak` (pinned tree)**: `bump_align_leak` (for EVERY
+  64-aligned block start, `alloc(32744, 64, 8)` answers `slow` on the block acquired for it) and the
+  `decide` witness `bump_align_leak_witness`: there the termination clause of C03 was FALSE (each
+  retry acquired and abandoned a block until the space was exhausted).  Immix uses the same bump
   pointer: `immix_hole_fits` (a request with `get_maximum_aligned_size ≤ Line::BYTES` fits every
   non-empty hole — the `debug_assert!` of `acquire_recyclable_lines`), `immix_clean_block_fits`.
 * (2) large objects — `los_alloc_within_pages` (aligned, `cell ≤ res`,
@@ -50,7 +59,7 @@ in the VM constants and in the build profile (`debug`):
   The top of the size range (`alignedSize > MAX_BIN_SIZE`) is the C35 defect
   `msbins:aligned-size-exceeds-max-bin` and is excluded by hypothesis `hs`, exactly as in C35.
 * (4) `ResultGood` (non-zero, aligned, `[res, res+size) ⊆ granted`) per allocator:
-  `bump_alloc_result_good`, `acquire_block_result_good`, `immix_hole_result_good`,
+  `bump_alloc_result_good`, `acquire_block_result_good_old`, `immix_hole_result_good`,
   `los_alloc_result_good`, `freelist_alloc_result_good`, and the conjunction `alloc_result_good`.
 
 NOT covered here (and why): that the granted region itself lies in the space (C26/C27 page
@@ -269,11 +278,11 @@ private theorem bumpBlockMask_eq : bumpBlockMask = 2^15 - 1 := by decide
 /-- `block_size = (size + BLOCK_MASK) & !BLOCK_MASK` is `size` rounded up to a multiple of the
 32 KB block: it covers `size` — and nothing else: **no alignment slack is included**. -/
 theorem acquireBlockSize_spec (debug : Bool) (size : Nat) (hs : size + 32767 < 2^64) :
-    ∃ bs, acquireBlockSize debug size = some bs ∧ bs = size + 32767 - (size + 32767) % 32768 ∧
+    ∃ bs, acquireBlockSizeOld debug size = some bs ∧ bs = size + 32767 - (size + 32767) % 32768 ∧
       size ≤ bs ∧ bs < size + 32768 ∧ bs % 32768 = 0 := by
   have h := roundUpMask_pow debug size 15 (by omega) (by omega)
   refine ⟨size + (2^15 - 1) - (size + (2^15 - 1)) % 2^15, ?_, by omega, by omega, by omega, by omega⟩
-  unfold acquireBlockSize
+  unfold acquireBlockSizeOld
   rw [bumpBlockMask_eq]
   exact h
 
@@ -291,20 +300,20 @@ private theorem fresh_block_cases_pow (vm : VMConsts) (debug : Bool) (ka km kx k
     ∃ bs, roundUpMask debug (2^k - 1) size = some bs ∧
       bs = size + (2^k - 1) - (size + (2^k - 1)) % 2^k ∧
       ((padSpec start align offset + size ≤ bs ∧
-          acquireBlockWith vm debug (2^k - 1) size align offset start =
+          acquireBlockWithOld vm debug (2^k - 1) size align offset start =
             .ok (start + padSpec start align offset)
               ⟨start + padSpec start align offset + size, start + bs⟩) ∨
        (bs < padSpec start align offset + size ∧
-          acquireBlockWith vm debug (2^k - 1) size align offset start = .slow)) := by
+          acquireBlockWithOld vm debug (2^k - 1) size align offset start = .slow)) := by
   have hp : 0 < 2^k := Nat.two_pow_pos _
   have hbs := roundUpMask_pow debug size k hk (by omega)
   refine ⟨_, hbs, rfl, ?_⟩
   generalize hB : size + (2^k - 1) - (size + (2^k - 1)) % 2^k = bs at hbs ⊢
   have hml := Nat.mod_lt (size + (2^k - 1)) hp
   have hlim : start + bs < 2^64 := by omega
-  have hacq : acquireBlockWith vm debug (2^k - 1) size align offset start =
+  have hacq : acquireBlockWithOld vm debug (2^k - 1) size align offset start =
       bumpAllocAligned vm debug ⟨start, start + bs⟩ size align offset := by
-    unfold acquireBlockWith
+    unfold acquireBlockWithOld
     rw [hbs]
     simp only [cadd_fits debug _ _ hlim]
   rw [hacq]
@@ -321,24 +330,24 @@ allocation falls through to `alloc_slow` *again* although the block was acquired
 request. -/
 theorem fresh_block_cases (vm : VMConsts) (debug : Bool) (ka km kx : Nat) (start size align offset : Nat)
     (H : FreshLegal vm ka km kx start size align offset) :
-    ∃ bs, acquireBlockSize debug size = some bs ∧ bs = size + 32767 - (size + 32767) % 32768 ∧
+    ∃ bs, acquireBlockSizeOld debug size = some bs ∧ bs = size + 32767 - (size + 32767) % 32768 ∧
       ((padSpec start align offset + size ≤ bs ∧
-          acquireBlock vm debug size align offset start =
+          acquireBlockOld vm debug size align offset start =
             .ok (start + padSpec start align offset)
               ⟨start + padSpec start align offset + size, start + bs⟩) ∨
        (bs < padSpec start align offset + size ∧
-          acquireBlock vm debug size align offset start = .slow)) := by
+          acquireBlockOld vm debug size align offset start = .slow)) := by
   obtain ⟨L, hk, hsm⟩ := H
   obtain ⟨bs, h1, h2, h3⟩ :=
     fresh_block_cases_pow vm debug ka km kx 15 start size align offset (by omega) L hk (by omega)
   refine ⟨bs, ?_, by omega, ?_⟩
-  · unfold acquireBlockSize; rw [bumpBlockMask_eq]; exact h1
-  · unfold acquireBlock; rw [bumpBlockMask_eq]; exact h3
+  · unfold acquireBlockSizeOld; rw [bumpBlockMask_eq]; exact h1
+  · unfold acquireBlockOld; rw [bumpBlockMask_eq]; exact h3
 
 /-- … as an equivalence -/
 theorem fresh_block_fits_iff (vm : VMConsts) (debug : Bool) (ka km kx : Nat) (start size align offset : Nat)
     (H : FreshLegal vm ka km kx start size align offset) :
-    (∃ res b', acquireBlock vm debug size align offset start = .ok res b') ↔
+    (∃ res b', acquireBlockOld vm debug size align offset start = .ok res b') ↔
       padSpec start align offset + size ≤ size + 32767 - (size + 32767) % 32768 := by
   obtain ⟨bs, _, hbe, hc⟩ := fresh_block_cases vm debug ka km kx start size align offset H
   rw [← hbe]
@@ -351,8 +360,8 @@ theorem fresh_block_fits_iff (vm : VMConsts) (debug : Bool) (ka km kx : Nat) (st
 /-- when it succeeds the result has all of C03's arithmetic clauses w.r.t. the acquired block -/
 theorem fresh_block_ok (vm : VMConsts) (debug : Bool) (ka km kx : Nat) (start size align offset : Nat)
     (H : FreshLegal vm ka km kx start size align offset) (res : Nat) (b' : Bump)
-    (h : acquireBlock vm debug size align offset start = .ok res b') :
-    ∃ bs, acquireBlockSize debug size = some bs ∧ (res + offset) % align = 0 ∧ start ≤ res ∧
+    (h : acquireBlockOld vm debug size align offset start = .ok res b') :
+    ∃ bs, acquireBlockSizeOld debug size = some bs ∧ (res + offset) % align = 0 ∧ start ≤ res ∧
       res + size ≤ start + bs ∧ b' = ⟨res + size, start + bs⟩ := by
   obtain ⟨bs, hbs, _, hc⟩ := fresh_block_cases vm debug ka km kx start size align offset H
   obtain ⟨r, _, hge, _, hmod, _, hreq⟩ :=
@@ -367,9 +376,9 @@ theorem fresh_block_ok (vm : VMConsts) (debug : Bool) (ka km kx : Nat) (start si
   · rw [e] at h; cases h
 
 /-- `acquire_block` never panics on a legal request -/
-theorem fresh_block_never_panics (vm : VMConsts) (debug : Bool) (ka km kx : Nat) (start size align offset : Nat)
+theorem fresh_block_never_panics_old (vm : VMConsts) (debug : Bool) (ka km kx : Nat) (start size align offset : Nat)
     (H : FreshLegal vm ka km kx start size align offset) :
-    acquireBlock vm debug size align offset start ≠ .panic := by
+    acquireBlockOld vm debug size align offset start ≠ .panic := by
   obtain ⟨bs, _, _, hc⟩ := fresh_block_cases vm debug ka km kx start size align offset H
   rcases hc with ⟨_, e⟩ | ⟨_, e⟩ <;> rw [e] <;> intro h <;> cases h
 
@@ -378,7 +387,7 @@ never see the problem: no padding is needed at the start of the block -/
 theorem fresh_block_fits_offset_multiple (vm : VMConsts) (debug : Bool) (ka km kx : Nat)
     (start size align offset : Nat) (H : FreshLegal vm ka km kx start size align offset)
     (hsa : align ∣ start) (hoa : align ∣ offset) :
-    ∃ b', acquireBlock vm debug size align offset start = .ok start b' := by
+    ∃ b', acquireBlockOld vm debug size align offset start = .ok start b' := by
   have hp : padSpec start align offset = 0 := by
     unfold padSpec
     rw [Nat.mod_eq_zero_of_dvd (Nat.dvd_add hsa hoa), Nat.sub_zero, Nat.mod_self]
@@ -394,7 +403,7 @@ aligned) block lies: `pad = 56`, `56 + 32744 = 32800 > 32768`.  `alloc` therefor
 `alloc_slow`, which acquires the next fresh block with the same outcome: the call does not terminate
 normally (it leaks a block per retry until the space is exhausted). -/
 theorem bump_align_leak (debug : Bool) (start : Nat) (hs : 64 ∣ start) (hsm : start + 65600 < 2^63) :
-    acquireBlock vmDefault debug 32744 64 8 start = .slow := by
+    acquireBlockOld vmDefault debug 32744 64 8 start = .slow := by
   have L : LegalAlign vmDefault 6 3 6 64 8 vmDefault.minAlign :=
     ⟨rfl, rfl, rfl, by omega, ⟨1, rfl⟩, by omega, Nat.le_refl _⟩
   have hk : vmDefault.minAlign ∣ start := by
@@ -410,12 +419,12 @@ theorem bump_align_leak (debug : Bool) (start : Nat) (hs : 64 ∣ start) (hsm : 
 
 /-- the `decide` witness of the defect on the executable definitions (both build profiles) -/
 theorem bump_align_leak_witness :
-    acquireBlockSize true 32744 = some 32768 ∧
-    acquireBlock vmDefault true 32744 64 8 0x20000000000 = .slow ∧
-    acquireBlock vmDefault false 32744 64 8 0x20000000000 = .slow ∧
+    acquireBlockSizeOld true 32744 = some 32768 ∧
+    acquireBlockOld vmDefault true 32744 64 8 0x20000000000 = .slow ∧
+    acquireBlockOld vmDefault false 32744 64 8 0x20000000000 = .slow ∧
     -- the same request with `offset = 0` fits, and so does one 40 bytes smaller
-    acquireBlock vmDefault true 32744 64 0 0x20000000000 = .ok 0x20000000000 ⟨0x20000007fe8, 0x20000008000⟩ ∧
-    acquireBlock vmDefault true 32704 64 8 0x20000000000 = .ok 0x20000000038 ⟨0x20000007ff8, 0x20000008000⟩ := by
+    acquireBlockOld vmDefault true 32744 64 0 0x20000000000 = .ok 0x20000000000 ⟨0x20000007fe8, 0x20000008000⟩ ∧
+    acquireBlockOld vmDefault true 32704 64 8 0x20000000000 = .ok 0x20000000038 ⟨0x20000007ff8, 0x20000008000⟩ := by
   decide
 
 theorem legal_align_lt {vm : VMConsts} {ka km kx align offset : Nat}
@@ -475,6 +484,103 @@ theorem fresh_block_with_slack_fits (vm : VMConsts) (debug : Bool) (ka km kx : N
   obtain ⟨res, b', h, h1, h2, h3, _⟩ :=
     fresh_buffer_fits vm debug ka km kx start bs size align offset HB (by omega)
   exact ⟨res, b', h, h1, h2, h3⟩
+
+/-! ### the repaired `acquire_block` (this tree): the block is sized for `get_maximum_aligned_size` -/
+
+/-- generic block size `2^k` -/
+private theorem fresh_block_always_fits_pow (vm : VMConsts) (debug : Bool) (ka km kx k : Nat)
+    (start size align offset : Nat) (hk : k < 64)
+    (L : LegalAlign vm ka km kx align offset vm.minAlign) (hst : vm.minAlign ∣ start)
+    (hszk : vm.minAlign ∣ size) (hsm : start + size + 2^k + align < 2^63) :
+    ∃ bs res b', acquireBlockSizeWith vm debug (2^k - 1) size align = some bs ∧
+      bs = (size + align - vm.minAlign) + (2^k - 1) - ((size + align - vm.minAlign) + (2^k - 1)) % 2^k ∧
+      acquireBlockWith vm debug (2^k - 1) size align offset start = .ok res b' ∧
+      (res + offset) % align = 0 ∧ start ≤ res ∧ res + size ≤ start + bs ∧
+      b' = ⟨res + size, start + bs⟩ ∧ res = start + padSpec start align offset := by
+  have hp : 0 < 2^k := Nat.two_pow_pos _
+  obtain ⟨_, hpos, hle, _⟩ := legal_align_lt L
+  have hm := maxAlignedSize_val vm debug ka km kx size align offset L (by omega) hszk
+  have hru := roundUpMask_pow debug (size + align - vm.minAlign) k hk (by omega)
+  have hbs : acquireBlockSizeWith vm debug (2^k - 1) size align =
+      some ((size + align - vm.minAlign) + (2^k - 1) - ((size + align - vm.minAlign) + (2^k - 1)) % 2^k) := by
+    unfold acquireBlockSizeWith
+    rw [hm]
+    exact hru
+  generalize hB : (size + align - vm.minAlign) + (2^k - 1) -
+    ((size + align - vm.minAlign) + (2^k - 1)) % 2^k = bs at hbs ⊢
+  have hml := Nat.mod_lt ((size + align - vm.minAlign) + (2^k - 1)) hp
+  have hlim : start + bs < 2^64 := by omega
+  have hacq : acquireBlockWith vm debug (2^k - 1) size align offset start =
+      bumpAllocAligned vm debug ⟨start, start + bs⟩ size align offset := by
+    unfold acquireBlockWith
+    rw [hbs]
+    simp only [cadd_fits debug _ _ hlim]
+  have HB : BumpLegal vm ka km kx ⟨start, start + bs⟩ size align offset :=
+    ⟨L, hst, by simp only; omega, by omega⟩
+  obtain ⟨res, b', h, h1, h2, h3, h4⟩ :=
+    fresh_buffer_fits vm debug ka km kx start bs size align offset HB (by omega)
+  obtain ⟨_, _, _, _, _, h5, _⟩ :=
+    bump_fast_ok vm debug ka km kx ⟨start, start + bs⟩ size align offset HB res b' h
+  exact ⟨bs, res, b', hbs, rfl, by rw [hacq]; exact h, h1, h2, h3, h4, h5⟩
+
+/-- **the repair restores C03's termination clause for the bump allocator
+(`fresh_block_always_fits`)**: in this tree `acquire_block` sizes the block for
+`get_maximum_aligned_size(size, align)`; for EVERY legal request (`FreshLegal`, `size` a multiple of
+`MIN_ALIGNMENT`) the allocation into the block acquired for it succeeds — it never comes back
+`.slow` (no second trip through `alloc_slow`, no leaked block) and never panics — and the result
+has all of C03's arithmetic clauses w.r.t. the acquired block `[start, start + block_size)`. -/
+theorem fresh_block_always_fits (vm : VMConsts) (debug : Bool) (ka km kx : Nat)
+    (start size align offset : Nat) (H : FreshLegal vm ka km kx start size align offset)
+    (hszk : vm.minAlign ∣ size) :
+    ∃ blockSize res b', acquireBlockSize vm debug size align = some blockSize ∧
+      blockSize = (size + align - vm.minAlign) + 32767 - ((size + align - vm.minAlign) + 32767) % 32768 ∧
+      acquireBlock vm debug size align offset start = .ok res b' ∧
+      (res + offset) % align = 0 ∧ start ≤ res ∧ res + size ≤ start + blockSize ∧
+      b' = ⟨res + size, start + blockSize⟩ ∧ res = start + padSpec start align offset := by
+  obtain ⟨L, hk, hsm⟩ := H
+  obtain ⟨bs, res, b', h1, h2, h3, h4⟩ :=
+    fresh_block_always_fits_pow vm debug ka km kx 15 start size align offset (by omega) L hk hszk (by omega)
+  refine ⟨bs, res, b', ?_, by omega, ?_, h4⟩
+  · unfold acquireBlockSize; rw [bumpBlockMask_eq]; exact h1
+  · unfold acquireBlock; rw [bumpBlockMask_eq]; exact h3
+
+/-- the repaired `acquire_block` never panics on a legal request (and, by `fresh_block_always_fits`,
+never answers `.slow` either) -/
+theorem fresh_block_never_panics (vm : VMConsts) (debug : Bool) (ka km kx : Nat)
+    (start size align offset : Nat) (H : FreshLegal vm ka km kx start size align offset)
+    (hszk : vm.minAlign ∣ size) :
+    acquireBlock vm debug size align offset start ≠ .panic ∧
+    acquireBlock vm debug size align offset start ≠ .slow := by
+  obtain ⟨_, _, _, _, _, e, _⟩ := fresh_block_always_fits vm debug ka km kx start size align offset H hszk
+  rw [e]
+  exact ⟨fun h => (by cases h), fun h => (by cases h)⟩
+
+/-- generic mask: when `get_maximum_aligned_size` adds nothing the two versions are the same function -/
+private theorem acquireBlockWith_eq_old (vm : VMConsts) (debug : Bool) (mask size align offset start : Nat)
+    (h : maxAlignedSize vm debug size align vm.minAlign = some size) :
+    acquireBlockWith vm debug mask size align offset start =
+      acquireBlockWithOld vm debug mask size align offset start := by
+  have hs : acquireBlockSizeWith vm debug mask size align = roundUpMask debug mask size := by
+    unfold acquireBlockSizeWith; rw [h]
+  unfold acquireBlockWith acquireBlockWithOld
+  rw [hs]
+
+/-- **`acquireBlock_eq_old_of_min_align`**: for `align = MIN_ALIGNMENT` (what ordinary callers ask
+for) the repair changes nothing: same block size, same outcome, for every `offset` and `start`. -/
+theorem acquireBlock_eq_old_of_min_align (vm : VMConsts) (debug : Bool) (ka km kx : Nat)
+    (start size align offset : Nat) (L : LegalAlign vm ka km kx align offset vm.minAlign)
+    (hmin : align = vm.minAlign) (hszk : vm.minAlign ∣ size) (hsz : size + align < 2^64) :
+    acquireBlockSize vm debug size align = acquireBlockSizeOld debug size ∧
+    acquireBlock vm debug size align offset start = acquireBlockOld vm debug size align offset start := by
+  obtain ⟨_, hpos, _, _⟩ := legal_align_lt L
+  have hm := maxAlignedSize_val vm debug ka km kx size align offset L hsz hszk
+  have e : size + align - vm.minAlign = size := by omega
+  rw [e] at hm
+  constructor
+  · unfold acquireBlockSize acquireBlockSizeOld acquireBlockSizeWith
+    rw [hm]
+  · unfold acquireBlock acquireBlockOld
+    exact acquireBlockWith_eq_old vm debug _ size align offset start hm
 
 /-! ### Immix: the same bump pointer on holes and clean blocks -/
 
@@ -691,14 +797,27 @@ theorem bump_alloc_result_good (vm : VMConsts) (debug : Bool) (ka km kx : Nat) (
 
 /-- **bump allocator, slow path**: when `acquire_block` succeeds the result is good w.r.t. the
 acquired block `[start, start + block_size)`. -/
-theorem acquire_block_result_good (vm : VMConsts) (debug : Bool) (ka km kx : Nat)
+theorem acquire_block_result_good_old (vm : VMConsts) (debug : Bool) (ka km kx : Nat)
     (start size align offset : Nat) (H : FreshLegal vm ka km kx start size align offset)
     (hnz : start ≠ 0) (res : Nat) (b' : Bump)
-    (h : acquireBlock vm debug size align offset start = .ok res b') :
-    ∃ bs, acquireBlockSize debug size = some bs ∧ ResultGood ⟨start, bs⟩ res size align offset ∧
+    (h : acquireBlockOld vm debug size align offset start = .ok res b') :
+    ∃ bs, acquireBlockSizeOld debug size = some bs ∧ ResultGood ⟨start, bs⟩ res size align offset ∧
       b' = ⟨res + size, start + bs⟩ := by
   obtain ⟨bs, hbs, h1, h2, h3, h4⟩ := fresh_block_ok vm debug ka km kx start size align offset H res b' h
   refine ⟨bs, hbs, ⟨by omega, h1, ?_⟩, h4⟩
+  simp only [Region.sub, Region.stop]; omega
+
+/-- **bump allocator, slow path, this tree**: `acquire_block` ALWAYS succeeds on a legal request and
+the result is good w.r.t. the acquired block `[start, start + block_size)`. -/
+theorem acquire_block_result_good (vm : VMConsts) (debug : Bool) (ka km kx : Nat)
+    (start size align offset : Nat) (H : FreshLegal vm ka km kx start size align offset)
+    (hszk : vm.minAlign ∣ size) (hnz : start ≠ 0) :
+    ∃ bs res b', acquireBlockSize vm debug size align = some bs ∧
+      acquireBlock vm debug size align offset start = .ok res b' ∧
+      ResultGood ⟨start, bs⟩ res size align offset ∧ b' = ⟨res + size, start + bs⟩ := by
+  obtain ⟨bs, res, b', hbs, _, h, h1, h2, h3, h4, _⟩ :=
+    fresh_block_always_fits vm debug ka km kx start size align offset H hszk
+  refine ⟨bs, res, b', hbs, h, ⟨by omega, h1, ?_⟩, h4⟩
   simp only [Region.sub, Region.stop]; omega
 
 /-- **Immix, recycled hole**: the allocation into a fresh hole is good w.r.t. the hole's lines. -/
@@ -815,6 +934,17 @@ example : bumpAllocAligned vmDefault true ⟨0x20000007f68, 0x20000008000⟩ 152
 example : bumpAllocAligned vmDefault true ⟨0x20000000010, 0x20000008000⟩ 152 32 4 = .panic := by decide
 example : FreshLegal vmDefault 6 3 6 0x20000000000 32744 64 8 :=
   ⟨⟨rfl, rfl, rfl, by omega, ⟨1, rfl⟩, by omega, Nat.le_refl _⟩, Nat.dvd_of_mod_eq_zero (by decide), by decide⟩
+/-- the request of `gc:bump-align-leak` now succeeds: the block is 64 KB (`32744 + 64 - 8 = 32800`
+rounded up), the object sits 56 bytes into it; the old function answered `.slow` -/
+example : acquireBlockSize vmDefault true 32744 64 = some 65536 ∧
+    acquireBlock vmDefault true 32744 64 8 0x20000000000 =
+      .ok 0x20000000038 ⟨0x20000008020, 0x20000010000⟩ ∧
+    acquireBlock vmDefault false 32744 64 8 0x20000000000 =
+      .ok 0x20000000038 ⟨0x20000008020, 0x20000010000⟩ ∧
+    acquireBlockOld vmDefault true 32744 64 8 0x20000000000 = .slow := by decide
+/-- with the minimum alignment nothing changed -/
+example : acquireBlock vmDefault true 32744 8 0 0x20000000000 =
+    acquireBlockOld vmDefault true 32744 8 0 0x20000000000 := by decide
 example : LosLegal vmDefault 6 3 6 65536 64 8 0x30000000000 :=
   ⟨⟨rfl, rfl, rfl, by omega, ⟨1, rfl⟩, by omega, Nat.le_refl _⟩, Nat.dvd_of_mod_eq_zero (by decide),
     Nat.dvd_of_mod_eq_zero (by decide), by decide, by decide⟩
